@@ -790,6 +790,110 @@ def r04g(run):
     run.floor("R04g", "error constructors / message properties", total, 10)
 
 
+R04H_INPUTS = {"value", "data", "item", "arg", "_key", "_val", "sent", "result", "val"}
+# functions of the parse-core modules that are not on a parse path: reason
+R04H_OUT_OF_SCOPE = {
+    "utype.parser.rule:LogicalType._parse_arg": "declaration time (builds a combinator from annotations)",
+    "utype.parser.base:BaseParser.__contains__": "mapping protocol of the parser object, not a parse",
+    "utype.parser.func:call": "free helper outside the decorated wrappers (not an entry of the property)",
+}
+
+
+def r04h(run):
+    """protocol operations on the raw input - iterating it, hashing a value taken from it - can raise whatever the
+    input's type raises (TypeError: not iterable / unhashable): each such site is inside a catch-all try, under a type
+    guard, or in a function every caller of which contains it"""
+    from . import c19
+    indirect = indirect_table(run)
+    total = 0
+    for f in in_scope_functions(run):
+        if f.ref in R04H_OUT_OF_SCOPE:
+            continue
+        params = {p for p in f.params if p in R04H_INPUTS}
+        if not params:
+            continue
+        fa = analysis(f)
+        P = prov(fa)
+        for n in fa.cfg.nodes:
+            if n.ast is None or n.kind not in ("stmt", "test", "iter"):
+                continue
+            ops = []
+            if n.kind == "iter":
+                it = n.ast
+                inner = it.args[0] if isinstance(it, ast.Call) and call_attr(it) in ("enumerate", "zip", "reversed") and it.args else it
+                via_method = isinstance(inner, ast.Call) and isinstance(inner.func, ast.Attribute) \
+                    and inner.func.attr in ("items", "values", "keys")
+                base = inner.func.value if via_method else inner
+                if isinstance(base, (ast.Name, ast.Attribute, ast.Subscript)) and c19._derives_from_param(fa, n, base, params):
+                    ops.append(("iteration", it, base))
+            for e in fa.node_exprs(n):
+                for sub in walk_shallow(e):
+                    key = None
+                    if isinstance(sub, ast.Compare) and len(sub.ops) == 1 and isinstance(sub.ops[0], (ast.In, ast.NotIn)) \
+                            and isinstance(sub.comparators[0], ast.Attribute):
+                        key = sub.left
+                    elif isinstance(sub, ast.Subscript) and isinstance(sub.value, ast.Attribute) and isinstance(sub.ctx, ast.Load) \
+                            and unparse(sub.value.value) in ("self", "cls"):
+                        key = sub.slice
+                    elif isinstance(sub, ast.Call) and isinstance(sub.func, ast.Attribute) and sub.func.attr == "get" \
+                            and isinstance(sub.func.value, ast.Attribute) and unparse(sub.func.value.value) in ("self", "cls") and sub.args:
+                        key = sub.args[0]
+                    if isinstance(key, ast.Name) and key.id in fa.rd.locals:
+                        os_ = P.of_name(n, key.id)
+                        # a value taken out of the input (mapping value / element), never a dict key or str(...)
+                        taken = [o for o in os_ if o.kind == "sub" or (o.kind == "call" and isinstance(o.node.func, ast.Attribute)
+                                                                       and o.node.func.attr == "get")]
+                        from_input = [o for o in taken if c19._derives_from_param(
+                            fa, o.at, o.node.value if o.kind == "sub" else o.node.func.value, params)]
+                        if from_input:
+                            ops.append(("hashing", sub, key))
+            for op, node, subject in ops:
+                total += 1
+                if op == "hashing":
+                    # the same key was hashed before on every path: this lookup cannot be the first to fail
+                    prior = [m for m in fa.cfg.dominators().get(n, set()) if m is not n and m.ast is not None
+                             and any(isinstance(x, ast.Compare) and isinstance(x.ops[0], (ast.In, ast.NotIn))
+                                     and unparse(x.left) == unparse(subject) for x in ast.walk(m.ast))]
+                    if prior:
+                        run.ob("R04h", f, f"hashing of `{unparse(subject)}` repeats a lookup made earlier on every path", True,
+                               nontrivial=False)
+                        continue
+                ok, _h = local_containment(fa, n)
+                why = "inside a catch-all try" if ok else ""
+                if not ok:
+                    # the interpreter's own failure of these operations is a TypeError (not iterable / unhashable)
+                    hs = [s_.handler for s_, k_ in n.succ if k_ == E and s_.kind == "handler"]
+                    if any("TypeError" in handler_type_names(h_) for h_ in hs):
+                        ok, why = True, "inside a try that catches TypeError"
+                if not ok:
+                    sname = unparse(subject)
+                    guard = [unparse(a) for a, p in fa.facts.atoms_at(n) if p and isinstance(a, ast.Call)
+                             and call_attr(a) in ("isinstance", "multi") and a.args and unparse(a.args[0]) == sname]
+                    if guard:
+                        ok, why = True, f"under the guard {guard[0]}"
+                if not ok and op == "iteration" and isinstance(subject, ast.Name) and f.name in (
+                        "data_first_parse", "field_first_parse", "parse_data"):
+                    ok, why = True, "the strategies receive a dict (BaseParser.__call__ coerces)"
+                if not ok and f.cls is not None and f.cls.name == "Constraints":
+                    # validators run through the compiled list: `validator(value, constraint)` in Rule.parse
+                    rp = run.repo.func("utype.parser.rule", "Rule.parse")
+                    rfa = analysis(rp)
+                    vs = [m for m, c_ in rfa.all_calls() if isinstance(c_.func, ast.Name) and c_.func.id == "validator"]
+                    ok = bool(vs) and all(local_containment(rfa, m)[0] for m in vs)
+                    why = "the validator call in Rule.parse is inside a catch-all try" if ok else "the validator call in Rule.parse is not contained"
+                if not ok:
+                    ok, chain = contained_interproc(run, f, indirect)
+                    why = "every caller contains it" if ok else "; ".join(chain[:2])
+                run.check("R04h", f, f"{op} of input-derived `{unparse(subject)[:30]}` cannot raise out of the parse ({why})", ok,
+                          construct=f"uncontained {op} of the input in {f.name}",
+                          message=f"{f.qualname}: `{unparse(node)[:60]}` performs {op} on a value that comes from the input, "
+                                  f"outside any catch-all try and without a type guard ({why})",
+                          necessity="a non-iterable (or unhashable) input makes the interpreter raise a bare TypeError here: "
+                                    "`class C(Rule): contains = int` given 5, or a discriminator field given {'kind': [1]}",
+                          node=node)
+    run.floor("R04h", "protocol operations on input-derived values", total, 8)
+
+
 def check(run):
     run.rules_run += ["R04a", "R04b", "R04c", "R04d", "R04e"]
     run.explain("C04: (R04a) every converter / validator / class-held constructor call in the parse core is inside a "
@@ -815,3 +919,5 @@ def check(run):
     c10.r10e(run, in_scope_functions(run), rule="R04f")
     run.rules_run.append("R04g")
     r04g(run)
+    run.rules_run.append("R04h")
+    r04h(run)
